@@ -55,7 +55,9 @@ theorem udp_pool_order_src :
 theorem tcp_pool_order_src : tcp_pool_order = "readTCPMsg,Submit,serveTCPMessage,tcpPool.Put" := by decide
 theorem tcp_read_pool_order_src : tcp_read_pool_order = "getTCPBuffer,ReadFull,tcpPool.Put" := by decide
 theorem doq_pool_order_src : doq_pool_order = "reqPool.Get,reqPool.Put,readAll,Unpack" := by decide
-theorem ups_pool_order_src : ups_pool_order = "getBuffer,putBuffer,packReq,processConn,processConn" := by decide
+/-- After the `fix:` commit for C06 (round 3) the request is packed again before the second attempt. -/
+theorem ups_pool_order_src :
+    ups_pool_order = "getBuffer,putBuffer,packReq,processConn,packReq,processConn" := by decide
 theorem doq_readall_read_arg_src : doq_readall_read_arg = "buf[n:]" := by decide
 
 /-! Response side (`packUDP`, `packWithPrefix`): what is packed into and what is written. -/
@@ -67,6 +69,20 @@ theorem doq_resp_write_arg_src : doq_resp_write_arg = "b" := by decide
 theorem pfx_grow_src : pfx_grow = "slices.Grow(buf, 2)[:l+2]" := by decide
 theorem pfx_copy_args_src : pfx_copy_args = "packed[2:], buf" := by decide
 theorem pfx_put_args_src : pfx_put_args = "packed[:2], uint16(l)" := by decide
+
+/-! Request side of the upstream exchange (`packReq`, `retryWrites`): the slice `PackBuffer` returns is
+copied into the buffer, the write takes `buf[:bufReqLen]`, the retry packs again into the same buffer. -/
+theorem ups_packreq_pack_arg_src : ups_packreq_pack_arg = "msgBuf" := by decide
+theorem ups_packreq_copy_args_src : ups_packreq_copy_args = "msgBuf, packed" := by decide
+theorem ups_packreq_msgbuf_src : ups_packreq_msgbuf = "buf[2:]" := by decide
+theorem ups_packreq_prefix_args_src : ups_packreq_prefix_args = "buf, uint16(n)" := by decide
+theorem ups_packreq_guard_tcp_src : ups_packreq_guard_tcp = "reqLen > len(buf)-2" := by decide
+theorem ups_packreq_guard_udp_src : ups_packreq_guard_udp = "reqLen > len(buf)" := by decide
+theorem ups_packreq_guard_packed_src : ups_packreq_guard_packed = "len(packed) > len(msgBuf)" := by decide
+theorem ups_write_arg_src : ups_write_arg = "buf[:bufReqLen]" := by decide
+theorem ups_retry_packreq_args_src : ups_retry_packreq_args = "network, buf, req" := by decide
+theorem ups_process_args_src :
+    ups_process_args = "ctx, conn, connsPool, network, req, buf, bufReqLen" := by decide
 
 /-! DoH GET: the parameter is decoded into a fresh slice. -/
 theorem doh_get_decode_src : doh_get_decode = "b64[0]" := by decide
